@@ -1,5 +1,5 @@
 """Which contracts decide which property."""
-from . import indexing, bases, align, axes
+from . import indexing, bases, align, axes, metadata
 
 GLOBAL_ASSUMPTIONS = [
     "NumPy implements the contracts in dverif/symnp.py (validated by sampling against the installed NumPy, never proved)",
@@ -16,7 +16,7 @@ PROPERTIES = {
         "level": "proof",
         "min_obligations": 2000,
     },
-    "T": {"contracts": [align.Align], "level": "proof"},
+    "T": {"contracts": [metadata.AttrRouting, metadata.AttrsProperty, metadata.AxisMetadataSurvivesIndexing], "level": "proof"},
     "C03": {
         "contracts": [bases.SetItem, indexing.MaybeCastType, (bases.Accessors, r"write|put|setitem"), (bases.ItemForwarding, r"^set"),
                       (bases.GetIndices, r"^r[01]-")],
@@ -29,6 +29,15 @@ PROPERTIES = {
         "level": "other",
         "min_obligations": 2000,
         "explanation": "proved: direction / uniqueness / order of Axis.union and intersection, frame and sort of _get_aligned_axes (real bodies, exact identity), align's composition over the callee contracts (labels, data, NaN fill, dims, forwarding, inputs untouched), reindex_axis. bounded stand-in (exhaustive, lengths <= 3): the set-inclusion clauses of union / intersection / _common_axis, on which the 'set union / intersection' sentence of the property rests.",
+    },
+    "C16": {
+        "contracts": [metadata.AttrRouting, metadata.AttrsProperty, metadata.AxisMetadataSurvivesIndexing,
+                      (bases.GetItem, r"^r[12]-(full|scalar|array|mask|slice)(\+(full|array))?-label$"),
+                      (align.TakeAxis, r"^r[12]-"), (align.SortAxis, r".")],
+        "level": "other",
+        "min_obligations": 300,
+        "explanation": "attribute routing: complete case analysis over the classes of names the routing code can distinguish (public / underscore / class member / dimension name, present in attrs or not) on the real DimArray, Dataset and Axis classes, one concrete execution per class -- complete under the stated parametricity assumption (a name is only compared for equality with known strings and tested for a leading underscore). metadata propagation through indexing, take_axis, sort_axis, reindex_axis and axis slicing: proved clauses (metadata-copied, axis metadata kept) of the respective contracts.",
+        "assumptions": ["parametricity of the routing code in the attribute name: it is only compared for equality with finitely many known strings (class members, exclude / include lists, dimension names, attrs keys) and tested for a leading underscore"],
     },
     "C07": {
         "contracts": [indexing.LocateMany, align.TakeAxis, align.ReindexAxis, (indexing.MaybeCastType, r"^[if]<-")],
